@@ -382,6 +382,13 @@ func TestC15(t *testing.T) {
 				r.Class("model skipped: " + strings.SplitN(why, ":", 2)[0])
 				if strings.HasPrefix(why, "baseline rejected") {
 					r.Class("model skipped, baseline rejected: " + resolutionErrClass(why))
+					if !isResolutionErr(why) {
+						src := map[string]string{}
+						for _, f := range files {
+							src[f.GetName()], _ = gen.Render(f, types, nil)
+						}
+						r.Sample("model skipped: canonical rendering rejected for a non-resolution reason", map[string]any{"id": id, "why": why, "sources": src})
+					}
 				}
 				return
 			}
